@@ -7,7 +7,7 @@
    revealed so far), Model/NetObs.v (dumps, the predicates [C13_ok] / [C13_rob_ok] = the
    runtime oracle of ./check C13). *)
 From Coq Require Import String.
-From Verif Require Import TrackerSpec TrackerSpecFacts StateHandlers Net NetObs NetProofs NetSim NetModes NetSimEv NetInv.
+From Verif Require Import TrackerSpec TrackerSpecFacts StateHandlers Net NetObs NetProofs NetSim NetModes NetSimEv NetInv NetInv2 NetWire.
 From Verif Require GoBytes LineLib Line LineSend Consts Facts.
 Open Scope Z_scope.
 
@@ -74,12 +74,15 @@ Lemma tie_C13 :
 Proof. repeat split; vm_compute; reflexivity. Qed.
 
 (* ---------- first sentence: conformant sessions ----------
-   [wf_net nt] (Proofs/NetSimEv.v): the truth is consistent, its names are protocol words, and
-   the VIEW holds EXACTLY the client's channels (d1), EXACTLY their memberships (d2), EXACTLY
-   the client and the users sharing a channel with it (d3).  [feed t ms] = the tracker after
-   the handlers processed the lines [expected ms] (what ParseLine delivers for the rendered
-   messages, C01_roundtrip).  [ev_inclaim]: no argument-taking mode letter after "-k" or a
-   list mode in one MODE line (property text + DESIGN D10). *)
+   [wf_net nt] (Proofs/NetSimEv.v): the truth is consistent, its names are protocol words (nicks,
+   users, hosts, channels, keys: non-empty, no space / NUL / CR / LF, no leading ':', nicks and
+   user@host without '!' '@'; topics, real names: no NUL / CR / LF), and the VIEW holds EXACTLY
+   the client's channels (d1), EXACTLY their memberships (d2), EXACTLY the client and the users
+   sharing a channel with it (d3).  A conformant session = any list of events: an event that is
+   not valid in the state it meets ([ev_valid]: nick change onto a name in use, join of a channel
+   one is on, ...) changes nothing and shows nothing.  [ev_inclaim]: no argument-taking mode
+   letter after "-k" in one MODE line (property text); list modes b e I with their mask are
+   inside the claim at any position (D10 is fixed). *)
 
 (* ONE EVENT, every kind (join of the client with 332/353*/366, join of others, part, kick,
    quit, nick, topic, mode, 324, WHO replies): the handlers turn the view before the event into
@@ -88,34 +91,34 @@ Theorem C13_sim_step : forall nt e,
   wf_net nt -> ev_inclaim e = true -> feed (n_view nt) (lines_for nt e) = n_view (step nt e).
 Proof. exact sim_step. Qed.
 
-(* the state after registration is well-formed *)
+(* well-formedness: holds after registration, is preserved by EVERY event *)
 Theorem C13_sim_init : forall me ui attr,
   nick_ok me = true -> LineSend.name_ok (ui_user ui) = true -> LineSend.name_ok (ui_host ui) = true ->
-  text_ok (ui_real ui) = true -> wf_net (net0 me ui attr).
+  text_ok (ui_real ui) = true -> LineSend.middle_ok (ui_user ui) = true -> LineSend.middle_ok (ui_host ui) = true ->
+  wf_net (net0 me ui attr).
 Proof. exact wf_net0. Qed.
+Theorem C13_wf_step : forall nt e, wf_net nt -> wf_net (step nt e).
+Proof. exact wf_step. Qed.
 
-(* SESSIONS of any length.  PARTIAL: well-formedness along the run is a HYPOTHESIS here.
-   Full statement (kept):
-     forall me ui attr evs, nick_ok me = true -> ... -> Forall (fun e => ev_inclaim e = true) evs ->
-       run_raw (view0 me attr) (map wire (all lines of evs)) = n_view (run_net (net0 me ui attr) evs)
-       /\ wf_net (run_net (net0 me ui attr) evs).
-   Missing: (a) [wf_net] is preserved by EJoin / EPart / EKick / EQuit / ENick (proved below for
-   all other kinds and for every invalid event); (b) every message of [lines_for] satisfies
-   [wf_msg] (then [recv_one (wire m) = expected m] by C01_recv).  Both are CHECKED dynamically
-   by ./check C13 on every generated session: (b) by the agreement of the Go simulator's wire
-   lines with [render (lines_for ..)] and of the real tracker with the model fold, (a) by
-   [exact_dom] (key sets of the real tracker = memberships of the truth) at every marker. *)
-Theorem C13_sim_partial : forall evs nt,
-  (forall k, wf_net (run_net nt (firstn k evs))) -> Forall (fun e => ev_inclaim e = true) evs ->
-  track nt (n_view nt) evs = n_view (run_net nt evs).
-Proof. exact sim_session. Qed.
+(* every message the server shows is a well-formed message in the sense of C01 *)
+Theorem C13_lines_wf : forall nt e, wf_net nt -> Forall (fun m => LineSend.wf_msg m = true) (lines_for nt e).
+Proof. exact lines_wf. Qed.
 
-Theorem C13_wf_step_partial : forall nt e,
-  wf_net nt -> (membership_event e = true -> ev_valid nt e = false) -> wf_net (step nt e).
-Proof. exact wf_step_partial. Qed.
+(* SESSIONS of any length, at the level of parsed lines ... *)
+Theorem C13_sim : forall evs nt,
+  wf_net nt -> Forall (fun e => ev_inclaim e = true) evs -> track nt (n_view nt) evs = n_view (run_net nt evs).
+Proof. exact sim_all. Qed.
+
+(* ... and on the RAW BYTES a conformant server sends (each message rendered, CR LF appended):
+   recv's Trim + ParseLine, then the state handlers; the tracker ends up equal to the view, and
+   the view is exactly the truth's channels / memberships / sharing users (wf_net) *)
+Theorem C13_sim_bytes : forall evs nt,
+  wf_net nt -> Forall (fun e => ev_inclaim e = true) evs ->
+  run_raw (n_view nt) (session_wire nt evs) = n_view (run_net nt evs) /\ wf_net (run_net nt evs).
+Proof. exact sim_bytes. Qed.
 
 (* the mode parser on a rendered mode line computes the meaning of the changes (flags, +k/-k,
-   +l/-l, privileges of members, list modes), for every line inside the claim *)
+   +l/-l, privileges of members, list modes with their mask), for every line inside the claim *)
 Theorem C13_mode_line : forall t c chs tail,
   Forall (chg_good c (ts_member t)) chs -> modes_inclaim chs = true ->
   fst (sp_ChannelModes t c (render_modes None chs) (mode_args chs ++ tail)) = v_modes t c chs.
@@ -123,6 +126,7 @@ Proof. exact ChannelModes_changes. Qed.
 
 (* once a WHO reply about a known user arrived, the view holds the truth's user@host and real name *)
 Theorem C13_who_reveals : forall nt n ui a,
+  nick_ok n = true ->
   n_users nt !! n = Some ui -> ts_nicks (n_view nt) !! n = Some a -> n <> n_me nt ->
   exists a', ts_nicks (n_view (step nt (EReplyWhoNick n))) !! n = Some a'
              /\ na_ident a' = ui_user ui /\ na_host a' = ui_host ui /\ na_name a' = ui_real ui.
@@ -224,24 +228,38 @@ Example C13_example_hostile :
   /\ rob_ok t3 = true /\ rob_ok t4 = true.
 Proof. vm_compute. repeat split; reflexivity. Qed.
 
-(* OUTSIDE THE CLAIM (DESIGN D10): "MODE #x +bo *!*@* vbot" — the list mode shifts the
-   arguments and the tracker loses the +o that the network granted *)
-Example C13_D10_witness :
+(* regression witness for DESIGN D10 (fixed): with the parser as it stood before the fix,
+   "MODE #x +bo *!*@* al" loses the +o; the present parser keeps it; the line is inside the claim *)
+Example C13_D10_regression :
+  let c := [35; 120]%N in let al := [97; 108]%N in
+  let mem : gmap (name * name) privs := {[ (c, al) := no_privs ]} in
+  let chs := [MList true 98 [42; 33; 42; 64; 42]; MPriv true 111 al]%N in
+  let st0 := Build_pstate false (mode_args chs) no_chanmode mem in
+  option_map cp_o (ps_mem (fold_left (chan_parse_char_old c) (render_modes None chs) st0) !! (c, al)) = Some false
+  /\ option_map cp_o (ps_mem (fold_left (chan_parse_char c) (render_modes None chs) st0) !! (c, al)) = Some true
+  /\ modes_inclaim chs = true.
+Proof. exact D10_regression. Qed.
+
+(* a session with a list mode before a privilege letter: the tracker follows the network *)
+Example C13_example_listmode :
   let evs := [EConnect x_al [97]%N [104;49]%N []; EJoin x_al x_x; EJoin x_me x_x;
-              EMode x_al x_x [MList true 98 [42;33;42;64;42]; MPriv true 111 x_me]%N] in
-  ev_inclaim (List.last evs (EJoin [] [])) = false
-  /\ option_map cp_o (ts_member (n_view (run_net x_net0 evs)) !! (x_x, x_me)) = Some true
-  /\ option_map cp_o (ts_member (track x_net0 (n_view x_net0) evs) !! (x_x, x_me)) = Some false.
+              EMode x_al x_x [MList true 98 [42;33;42;64;42]; MPriv true 111 x_me; MKey true [107]; MList false 101 [120]]%N] in
+  forallb ev_inclaim evs = true
+  /\ option_map cp_o (ts_member (track x_net0 (n_view x_net0) evs) !! (x_x, x_me)) = Some true
+  /\ bool_decide (track x_net0 (n_view x_net0) evs = n_view (run_net x_net0 evs)) = true.
 Proof. vm_compute. repeat split; reflexivity. Qed.
 
 Print Assumptions tie_C13.
 Print Assumptions C13_sim_step.
 Print Assumptions C13_sim_init.
-Print Assumptions C13_sim_partial.
-Print Assumptions C13_wf_step_partial.
+Print Assumptions C13_wf_step.
+Print Assumptions C13_lines_wf.
+Print Assumptions C13_sim.
+Print Assumptions C13_sim_bytes.
 Print Assumptions C13_mode_line.
 Print Assumptions C13_who_reveals.
-Print Assumptions C13_D10_witness.
+Print Assumptions C13_D10_regression.
+Print Assumptions C13_example_listmode.
 Print Assumptions C13_robust_step.
 Print Assumptions C13_robust.
 Print Assumptions C13_robust_bytes.
